@@ -88,6 +88,16 @@ def exec_stack(ops, stats=None):
             else:
                 raise ValueError(f"bad op {op}")
             # ---- observations after every step
+            n = len(m)
+            if n > 48 and name in ("push", "pop", "peek") and i % 8:
+                # large stacks (the `big` histories): push/pop/peek only touch the top, so most of
+                # them are observed through len, emptiness, both ends and a window below the top;
+                # every eighth step and every other operation is observed in full
+                if len(s) != n or s.empty() or s.peek() != m[-1] or s[-1] != m[-1] or s[0] != m[0] or list(s[-6:]) != m[-6:] or s[n // 2] != m[n // 2]:
+                    return _viol("stack", f"top-window-differs-after-{name}", i, op, {"len": len(s), "expected_len": n, "expected_top": m[-6:]}, ops)
+                if stats is not None:
+                    stats["steps"] += 1
+                continue
             got_list = list(s)
             if got_list != m:
                 return _viol("stack", f"contents-differ-after-{name}", i, op, {"got": got_list, "expected": list(m)}, ops)
@@ -143,6 +153,18 @@ def exec_int(ops, stats=None):
             elif name == "sub":
                 x = x - op[1]
                 v -= op[1]
+            elif name == "iadd":
+                y = x
+                x += op[1]  # the form the library itself uses (state.atomic_depth += 1)
+                v += op[1]
+                if x is not y:
+                    return _viol("int", "inplace-add-returns-other-object", i, op, {}, ops)
+            elif name == "isub":
+                y = x
+                x -= op[1]
+                v -= op[1]
+                if x is not y:
+                    return _viol("int", "inplace-sub-returns-other-object", i, op, {}, ops)
             elif name == "mul":
                 x = x * op[1]
                 v *= op[1]
@@ -321,20 +343,27 @@ def gen_stack(rng: random.Random, probes: dict) -> list:
     counter = [0]
     size = [0]
     snaps: list[int] = []  # model sizes at snapshots (to keep pops feasible)
+    hi = [0, 0, 0]  # max height, max snapshot depth, max distance popped below the newest level
 
     def push():
         counter[0] += 1
         ops.append(["push", counter[0]])
         size[0] += 1
+        if size[0] > hi[0]:
+            hi[0] = size[0]
 
     def pop():
         if size[0] > 0:
             ops.append(["pop"])
             size[0] -= 1
+            if snaps and snaps[-1] - size[0] > hi[2]:
+                hi[2] = snaps[-1] - size[0]
 
     def snapshot():
         ops.append(["snapshot"])
         snaps.append(size[0])
+        if len(snaps) > hi[1]:
+            hi[1] = len(snaps)
 
     def restore():
         ops.append(["restore"])
@@ -368,6 +397,7 @@ def gen_stack(rng: random.Random, probes: dict) -> list:
         probes["gen_uniform_short"] += 1
         return ops
 
+    big = mode < 0.38
     # swarm weights
     w = {
         "push": rng.choice((1, 2, 3, 5)),
@@ -477,6 +507,55 @@ def gen_stack(rng: random.Random, probes: dict) -> list:
             restore()  # and once more with no snapshot left: must empty the stack
         probes["shape_e"] += 1
 
+    if big:
+        # big: long histories made of RUNS (k pushes, k pops, k snapshots, ...) with k log-uniform
+        # up to a few hundred, so that stack height, snapshot depth and the number of items
+        # popped below a level all pass any size threshold an implementation might have
+        # (compaction, chunking, amortised clean-up every N operations)
+        cap = rng.choice((40, 150, 400))
+        n = rng.choice((200, 500, 1200))
+
+        def run_len():
+            return max(1, int(2 ** (rng.random() * cap.bit_length())) % (cap + 1))
+
+        bias = rng.choice(("grow", "deep", "below", "mixed"))
+        while len(ops) < n:
+            r = rng.random()
+            k = run_len()
+            if bias == "grow":
+                r = r * 0.8  # more pushes/pops
+            if r < 0.30:
+                for _ in range(k):
+                    push()
+            elif r < 0.55:
+                for _ in range(min(k, size[0])):
+                    pop()
+            elif r < 0.70:
+                for _ in range(k if bias == "deep" else min(k, 6)):
+                    snapshot()
+                    if bias == "below" and size[0] > 0:
+                        for _ in range(min(rng.randint(1, 3), size[0])):
+                            pop()
+                    elif rng.random() < 0.3:
+                        push()
+            elif r < 0.82:
+                for _ in range(min(k, len(snaps) + 1) if bias == "deep" else 1):
+                    restore()
+            elif r < 0.94:
+                for _ in range(min(k, len(snaps) + 1) if bias == "deep" else 1):
+                    drop()
+            elif r < 0.96:
+                clear()
+            else:
+                rng.choice((shape_a, shape_c, shape_d, shape_e))()
+        for _ in range(len(snaps) + (1 if rng.random() < 0.3 else 0)):
+            (restore if rng.random() < 0.7 else drop)()
+        probes["gen_big"] += 1
+        probes["big_height_ge_100"] += hi[0] >= 100
+        probes["big_depth_ge_50"] += hi[1] >= 50
+        probes["big_popped_below_level_ge_50"] += hi[2] >= 50
+        return ops
+
     while len(ops) < n:
         if shapes < 0.6 and rng.random() < 0.15:
             rng.choice((shape_a, shape_b, shape_c, shape_d, shape_e))()
@@ -503,14 +582,51 @@ def gen_stack(rng: random.Random, probes: dict) -> list:
 
 def gen_int(rng: random.Random, probes: dict) -> list:
     ops: list = []
-    n = rng.choice((rng.randint(1, 8), rng.randint(5, 40)))
-    kinds = ["add", "sub", "zero", "snapshot", "restore", "drop", "mul", "neg", "abs", "floordiv", "mod", "pow", "truediv", "pos"]
+    mode = rng.random()
+    if mode < 0.05:
+        # big: long runs of equal steps with snapshots in between (run-length or delta
+        # encodings merge only after many equal steps), deep snapshot nesting, large values
+        n = rng.choice((150, 400, 900))
+        step = rng.choice((1, 1, 2, 7, 2**31 - 1, 2**63, 10**30))
+        while len(ops) < n:
+            r = rng.random()
+            k = max(1, int(2 ** (rng.random() * 8)))
+            if r < 0.35:
+                for _ in range(k):
+                    ops.append(["snapshot"])
+                    if rng.random() < 0.8:
+                        ops.append([rng.choice(("iadd", "add", "iadd", "isub")), step])
+            elif r < 0.55:
+                for _ in range(k):
+                    ops.append(["snapshot"])
+            elif r < 0.75:
+                for _ in range(k):
+                    ops.append(["restore"])
+            elif r < 0.9:
+                for _ in range(k):
+                    ops.append(["drop"])
+            elif r < 0.95:
+                ops.append(["zero"])
+            else:
+                ops.append([rng.choice(("iadd", "isub", "add", "sub")), rng.choice((1, step, 3))])
+        probes["gen_big"] += 1
+        return ops
+    n = rng.choice((rng.randint(1, 8), rng.randint(5, 40), rng.randint(30, 120)))
+    kinds = ["add", "sub", "zero", "snapshot", "restore", "drop", "mul", "neg", "abs", "floordiv", "mod", "pow", "truediv", "pos", "iadd", "isub"]
     exotic = rng.choice((0, 0, 1))
-    weights = [4, 3, 1, 3, 3, rng.choice((0, 1, 3)), rng.choice((0, 1)), rng.choice((0, 1)), rng.choice((0, 1)), exotic, exotic, exotic, exotic, exotic]
+    weights = [4, 3, 1, 3, 3, rng.choice((0, 1, 3)), rng.choice((0, 1)), rng.choice((0, 1)), rng.choice((0, 1)), exotic, exotic, exotic, exotic, exotic, rng.choice((0, 2, 4)), rng.choice((0, 1, 3))]
+    amounts = (1, 1, 1, 2, 3)
+    if not exotic and rng.random() < 0.3:
+        amounts = (1, 2, 255, 256, 2**31, 2**64 + 1)  # never together with pow / true division
+    pows = 0
     for _ in range(n):
         k = rng.choices(kinds, weights)[0]
-        if k in ("add", "sub"):
-            ops.append([k, rng.choice((1, 1, 1, 2, 3))])
+        if k == "pow":
+            pows += 1
+            if pows > 2:  # keeps the values (and the run time) bounded
+                continue
+        if k in ("add", "sub", "iadd", "isub"):
+            ops.append([k, rng.choice(amounts)])
         elif k == "mul":
             ops.append([k, rng.choice((0, 1, 2, -1))])
         elif k in ("floordiv", "mod", "truediv"):
@@ -526,6 +642,12 @@ def gen_state(rng: random.Random, probes: dict) -> list:
     ops: list = []
     counter = [0]
     n = rng.choice((rng.randint(1, 10), rng.randint(5, 30), rng.randint(20, 80)))
+    max_nest = 8
+    if rng.random() < 0.04:
+        # big: long histories, deep bracket nesting (thresholds on history length / depth)
+        n = rng.choice((200, 500, 1000))
+        max_nest = rng.choice((30, 120, 400))
+        probes["gen_big"] += 1
     br: list[str] = []
     usize = [0]
     rsize = [0]
@@ -545,6 +667,10 @@ def gen_state(rng: random.Random, probes: dict) -> list:
         "aenter": rng.choice((0, 1, 2)),
         "aexit": rng.choice((1, 2)),
     }
+    if max_nest > 8:
+        w["checkpoint"] = rng.choice((4, 6, 9))
+        w["upush"] = rng.choice((2, 4, 8))
+        w["uclear"] = rng.choice((0, 0, 0, 1))
     kinds = list(w)
     weights = [w[k] for k in kinds]
     # sizes are tracked loosely: the executor skips infeasible pops, so over-approximate
@@ -567,11 +693,11 @@ def gen_state(rng: random.Random, probes: dict) -> list:
                 br.pop()
                 ops.append([k])
         elif k == "checkpoint":
-            if len(br) < 8:
+            if len(br) < max_nest:
                 br.append("cp")
                 ops.append([k])
         elif k == "aenter":
-            if len(br) < 8:
+            if len(br) < max_nest:
                 br.append("at")
                 ops.append([k])
         else:
@@ -648,7 +774,7 @@ def run_batch(job) -> dict:
     gc.disable()
     subject = job["subject"]
     rng = random.Random(job["seed"])
-    probes = {k: 0 for k in ("gen_uniform_short", "shape_a", "shape_b", "shape_c", "shape_d", "shape_e", "restore_without_snapshot")}
+    probes = {k: 0 for k in ("gen_uniform_short", "shape_a", "shape_b", "shape_c", "shape_d", "shape_e", "restore_without_snapshot", "gen_big", "big_height_ge_100", "big_depth_ge_50", "big_popped_below_level_ge_50")}
     st = {"steps": 0, "nontrivial_flag": False}
     distinct_nt: set[int] = set()
     abstract: set[int] = set()
